@@ -12,6 +12,26 @@ for tc in ET.parse(out).getroot().iter("testcase"):
     if not any(c.tag in ("failure", "error", "skipped") for c in tc):
         passed.add(f"{tc.get('classname')}::{tc.get('name')}")
 lost = [t for t in base["stable_pass"] if t not in passed]
+if lost and len(lost) <= 60:
+    # tests that share a fixed resource (local HTTP port, working directory) fail when several suites run on this machine at the
+    # same time: re-run the lost ones alone, serially, before calling them lost
+    ids = []
+    for t in lost:
+        cls, name = t.split("::", 1)
+        ids.append(cls.replace(".", "/") + ".py::" + name)
+    out2 = tempfile.mktemp(suffix=".xml")
+    subprocess.run(["/venv/bin/python", "-m", "pytest", "-q", "-p", "no:cacheprovider", "--timeout=900", f"--junitxml={out2}", *ids], cwd=root,
+                   stdout=subprocess.DEVNULL, stderr=subprocess.DEVNULL)
+    try:
+        for tc in ET.parse(out2).getroot().iter("testcase"):
+            if not any(c.tag in ("failure", "error", "skipped") for c in tc):
+                passed.add(f"{tc.get('classname')}::{tc.get('name')}")
+        os.unlink(out2)
+    except Exception:
+        pass
+    relost = [t for t in lost if t not in passed]
+    print(f"re-run of {len(lost)} lost tests alone: {len(lost) - len(relost)} pass")
+    lost = relost
 print(f"stable_pass={len(base['stable_pass'])} passed_now={len(passed)} lost={len(lost)}")
 for t in lost[:40]:
     print("LOST", t)
